@@ -1016,6 +1016,55 @@ def site_index(facts):
     return idx
 
 
+def sim_leak_scan(ctx):
+    """Kernel refusals and SPI collisions through the REAL netlink path (two endpoints in the simulator, model kernel
+    behind the real netlink framing): every record at INFO or above against every secret derived in that run."""
+    from sim.scenarios import Pair, scripted
+    from sim.world import LoopEscape
+    fails = []
+    runs = [('spi_collision_out', scripted('spi_collision_out')), ('spi_collision_in', scripted('spi_collision_in')),
+            ('spi_collision_rekey', scripted('spi_collision_rekey'))]
+    for base in ('handshake', 'new_child', 'rekey_child'):
+        for side in 'AB':
+            for k in range(4):
+                runs.append((f'{base}/kernel-refuses-newsa-{side}{k}', [['kfail_newsa', side, k]] + scripted(base)))
+    for name, acts in runs:
+        with Pair(seed=ctx.rng.getrandbits(32)) as p:
+            try:
+                p.run(acts)
+                p.drain()
+            except LoopEscape:
+                pass
+            secrets = [(label, bytes(v)) for label, v in p.sim.secrets if v and len(v) >= 8]
+            for c in (p.A.confdict, p.B.confdict):
+                for conn in c.values():
+                    for a in ('my_auth', 'peer_auth'):
+                        psk = (conn.get(a) or {}).get('psk')
+                        if psk and len(psk) >= 6:
+                            secrets.append(('PSK', psk.encode()))
+            recs = [(lv, msg) for lv, msg in p.sim.log_records if lv >= logging.INFO]
+            refused = sum(1 for r in p.A.kernel.requests + p.B.kernel.requests if r[3] != 0)
+            ctx.case({'sim-scenario': name, 'records>=INFO': len(recs), 'secrets': len(secrets), 'refused': refused},
+                     nontrivial=refused > 0)
+            ctx.count('oracle:sim-records>=INFO', len(recs))
+            for lv, msg in recs:
+                low = msg.lower()
+                for label, val in secrets:
+                    form = 'hexadecimal' if val.hex() in low else ('raw' if val.decode('latin-1') in msg else
+                                                                   ('repr' if repr(val)[2:-1] in msg else None))
+                    if form:
+                        fails.append(Failure('property', 'log:secret-at-info',
+                                             f'simulator scenario {name}: level {lv} record contains {label} in {form} '
+                                             f'form: {msg[:300]!r}',
+                                             {'kind': 'sim-scenario', 'scenario': name, 'actions': acts, 'secret': label}))
+                        break
+                if fails:
+                    break
+        if fails:
+            break
+    return fails
+
+
 def correspond(ctx):
     """tie between the regenerated site list and the running code: every record emitted while the scenarios run
     comes from a call site of the list, with the level the list gives it"""
@@ -1077,10 +1126,14 @@ def oracle(ctx, deep):
                                    f'record although the DEBUG dumps should show them (error: {err})')
         if len(fails) >= 6:
             break
+    if len(fails) < 6:
+        fails += sim_leak_scan(ctx)
     return fails
 
 
 def replay(ctx, obj):
+    if obj.get('kind') == 'sim-scenario':
+        return sim_leak_scan(ctx)
     if obj.get('kind') != 'scenario':
         return []
     name = obj['scenario']
